@@ -412,8 +412,9 @@ def r4d(prog, rep):
                     h = prog.resolve(x.callee, f.crate)
                     if h is None or h.kind not in ('Fn', 'AssocFn') or not re.search(r'^std::result::Result<', h.ty.get(0) or ''):
                         continue
-                    oks = [(i, st) for i, b in h.blocks.items() for st in b['stmts']
-                           if st['dst']['l'] == 0 and not st['dst']['p'] and st['r']['rv'] == 'agg' and st['r']['kind'].endswith('Result::Ok')]
+                    # every place where the helper's result is set to something other than a plain Err(..)
+                    oks = [(d[0], d[3]) for d in h.defs.get(0, []) if not d[3]['dst']['p'] and
+                           not (d[2] == 'stmt' and d[3]['r']['rv'] == 'agg' and d[3]['r']['kind'].endswith('Result::Err'))]
                     def some_edge(i):
                         for (sbb, discr, vals, neg) in h.conditions_at(i):
                             d = mir.provenance(h, discr, follow_all_call_args=True)
@@ -424,7 +425,7 @@ def r4d(prog, rep):
                     # ... and the helper's Err leaves the ledger step through `?` before the assignment
                     q = [b2 for b2 in src.calls if b2.short == 'branch' and b2.args and x in mir.provenance(f, b2.args[0], pass_through=set()).calls
                          and f.dominates(b2.bb, bb)]
-                    if oks and all(some_edge(i) for i, _ in oks) and not any(c2.short == 'from_output' for c2 in h.calls) and q:
+                    if oks and all(some_edge(i) for i, _ in oks) and q:
                         guarded = True
             arm = [a for a, rg in L.region.items() if bb in rg]
             k = 'no-%s-without-previous-cost-base|%s#%d' % (what.replace(' ', '-'), arm[0] if arm else '?', n)
